@@ -227,6 +227,34 @@ pub fn c14(run: &Run) -> Vec<String> {
             bad.push(format!("job {} ran on worker index {}, outside any pool size used", x.5, x.2));
         }
     }
+    // ... and inside the CURRENT pool: a job is routed when it is dispatched (custom hashing, round robin) and
+    // must then go to a worker below the size requested last before that dispatch; workers that a shrink
+    // removed but that are still busy are not part of the pool any more. (Key-persistent and sticky routing
+    // deliberately keep a key with the worker that still holds jobs of it; queuer routing queues in the
+    // factory and routes when a worker frees up, possibly after a later growth.) Histories in which the system settled after
+    // every request only.
+    if matches!(run.cfg.routing, Routing::CustomConst | Routing::CustomIdentity | Routing::CustomMax | Routing::RoundRobin) && !run.history.contains(&Event::NoSettle) {
+        let mut size = run.cfg.workers;
+        let mut dispatched = 0u32;
+        let mut size_at: BTreeMap<u32, usize> = BTreeMap::new();
+        for e in &run.history {
+            match e {
+                Event::Resize(n) => size = *n,
+                Event::Dispatch(_) => {
+                    dispatched += 1;
+                    size_at.insert(dispatched, size);
+                }
+                _ => {}
+            }
+        }
+        for x in &iv {
+            if let Some(n) = size_at.get(&x.5) {
+                if x.2 >= *n {
+                    bad.push(format!("job {} was dispatched when the pool had {n} worker(s) and ran on worker {} (history {:?})", x.5, x.2, run.history));
+                }
+            }
+        }
+    }
     if run.factory_status != ActorStatus::Running && !run.drained {
         bad.push(format!("the factory died ({:?}) during history {:?}", run.factory_status, run.history));
     }
@@ -304,7 +332,9 @@ pub fn c15(run: &Run) -> Vec<String> {
         // newest = the job being dispatched; oldest = the longest-waiting job of the lowest priority class
         // that has one (the default queue has a single class)
         // (queuer routing only: sticky routing parks jobs of a key that is in progress at that worker)
-        if run.cfg.routing == Routing::Queuer && !run.history.contains(&Event::NoSettle) {
+        // (... and no worker lingering on its way out: a job whose dispatch to such a worker failed is parked at
+        // that worker, outside the factory queue)
+        if run.cfg.routing == Routing::Queuer && !run.history.contains(&Event::NoSettle) && !run.history.iter().any(|e| matches!(e, Event::StopSlowly(_))) {
             let first_lc = |id: u32, pick: &dyn Fn(&Ev) -> bool| run.events.iter().find(|(_, e)| pick(e) && matches!(e, Ev::Start { id: i, .. } | Ev::Discard { id: i, .. } if *i == id)).map(|(l, _)| *l);
             for (t, e) in &run.events {
                 let Ev::Discard { reason, id } = e else { continue };
